@@ -7,7 +7,7 @@
 import TrompModel.Model.CxxBase
 namespace Tromp.Cxx
 
-/-- `impl::is_permutation_elements_checker::operator()` — translated from include/trompeloeil/matcher/range.hpp:198 -/
+/-- `impl::is_permutation_elements_checker::operator()` — translated from include/trompeloeil/matcher/range.hpp:200 -/
 def is_permutation_elements {α μ : Type} (accepts : μ → α → Bool) (range : List α) (elements : List μ) : Bool := Id.run do
   let mut matchers : List μ := elements
   let mut it_at_end : Bool := true
